@@ -79,7 +79,7 @@ type c15View struct {
 }
 
 func buildC15View(kind string) (*c15View, error) {
-	w, err := world.New(world.Config{Hold: true})
+	w, err := world.New(world.Config{Hold: true, Parallel: true})
 	if err != nil {
 		return nil, err
 	}
